@@ -368,6 +368,10 @@ func (w *World) makeLogin(id, p int, register bool) common.RemoteUserLogin {
 		w.pidLast[p] = who
 	}
 	cred := fmt.Sprintf("cred-%d-%s", who, w.salt)
+	if who%2 == 1 {
+		// password / plain public key: sshd names no certificate identity, the login is "anonymous"
+		cred = common.UnknownUser
+	}
 	evt := auditevent.NewAuditEvent(
 		common.ActionLoginIdentifier,
 		auditevent.EventSource{Type: "IP", Value: ip,
